@@ -206,7 +206,7 @@ func genHistory(r *common.Rand, nops int) histCase {
 	} else if r.Intn(7) != 0 {
 		t := genDoc(r, addrs).text(r)
 		hc.Init = &t
-		hc.Mode = common.Pick(r, []uint32{0o644, 0o600, 0o640, 0o666})
+		hc.Mode = common.Pick(r, []uint32{0o644, 0o600, 0o640, 0o666, 0o664})
 	}
 	for i := 0; i < nops; i++ {
 		a := common.Pick(r, addrs)
@@ -264,6 +264,8 @@ func main() {
 	for _, hc := range fixedHistories() {
 		runHistory(hc)
 	}
+	legacyStream(r, run.Scale(60, 3000))
+	modeStream(r, run.Scale(1, 40))
 	n := run.Scale(600, 60000)
 	for i := 0; i < n; i++ {
 		runHistory(genHistory(r, 10))
